@@ -205,6 +205,21 @@ def top_section(rng, path, fmt, how):
                 mode_old=None, mode_new=None, w=0)
 
 
+def dot_names(scn):
+    """the same scenario with its names written './path' (diff -u ./f.orig ./f) and -p0; plain formats only"""
+    text = scn["tree"]["p.diff"][2]
+    for x in scn["secs"]:
+        if x["fmt"] == "git":
+            return None
+        for pre in (b"--- a/", b"+++ b/", b"*** a/", b"--- b/", b"Index: b/", b"diff a/"):
+            text = text.replace(pre + x["path"].encode("latin-1"), pre[:-2] + b"./" + x["path"].encode("latin-1"))
+        text = text.replace(b" b/" + x["path"].encode("latin-1") + b"\n", b" ./" + x["path"].encode("latin-1") + b"\n")
+    t = dict(scn); t["tree"] = dict(scn["tree"]); t["tree"]["p.diff"] = ("R", 0o644, text)
+    t["opts"] = dict(scn["opts"], p=0)
+    t["no_model"] = True        # (the model's tree is keyed by the literal path: './f' and 'f' are different names there)
+    return t
+
+
 def same_file_scenario(rng, opts=None, git=False):
     """several sections hit the same file in one run: delete f / change g / create f / change g again (or create-then-modify)"""
     fmt = "git" if git else "unified"
